@@ -1,5 +1,9 @@
 import Lace.Props.C16
+import Lace.Props.C16Term
 #print axioms Lace.C16.no_spin
 #print axioms Lace.C16.iter_mono
 #print axioms Lace.C16.work_bound
 #print axioms Lace.DbgProofs.nextAction_no_cmd
+#print axioms Lace.C16.reads_bounded
+#print axioms Lace.C16.session_work_bound
+#print axioms Lace.C16.session_terminates
